@@ -1,3 +1,2 @@
-import BioCantor.Driver.Main
 import BioCantor.Driver.SpecTranscript
-def main : IO Unit := BioCantor.Driver.runSpec BioCantor.Driver.SpecTranscript.ops
+def main : IO Unit := BioCantor.Driver.SpecTranscript.main
